@@ -489,6 +489,23 @@ ABS_BUILTIN_FORMS = ('builtin', 'method', 'fabs')
 FLOAT32_OK = set(ELEM)
 
 
+# tiny magnitude base points |x0| in 1e-20 .. 1e-4 (where log1p(x) != log(1+x), expm1(x) != exp(x)-1, sin(x) ~ x ...):
+# name -> (both signs?, exact zeros +0.0 / -0.0 included?)
+TINY = {n: (True, True) for n in ('exp', 'expm1', 'log1p', 'sin', 'cos', 'tan', 'arcsin', 'arccos', 'arctan', 'sinh', 'cosh', 'tanh',
+                                  'square', 'negative', 'erf', 'erfi', 'dawsn', 'expit')}
+TINY.update({n: (True, False) for n in ('sign', 'absolute', 'reciprocal')})          # kink / pole at 0
+TINY.update({n: (False, False) for n in ('log', 'sqrt', 'logit', 'gammaln', 'psi')})  # defined for x > 0
+
+
+def tiny_values(both_signs, zeros):
+    mant = st.floats(1.0, 9.999, allow_nan=False, allow_infinity=False, width=64)
+    mag = st.builds(lambda m, e: m * 10.0 ** e, mant, st.integers(-20, -5))
+    v = st.builds(lambda a, sg: a * sg, mag, st.sampled_from([1.0, -1.0])) if both_signs else mag
+    if zeros:
+        v = st.one_of(v, v, v, v, v, v, st.sampled_from([0.0, -0.0]))
+    return v
+
+
 @st.composite
 def elem_cases(draw, name):
     D, P = draw(dims())
@@ -496,7 +513,12 @@ def elem_cases(draw, name):
     dom, forms, _ = ELEM[name]
     form = draw(st.sampled_from(sorted(forms)))
     case = {'op': name, 'form': form, 'params': {}}
-    mode = draw(st.sampled_from(['f', 'f', 'f', 'c', 'c', 'f32', 'int']))
+    mode = draw(st.sampled_from(['f', 'f', 'f', 'c', 'c', 'f32', 'int', 'tiny', 'tiny', 'tiny']))
+    if mode == 'tiny':
+        # compared element-wise RELATIVE to the NumPy value (a few ulp), see c10.cmp_ulp
+        case['args'] = [draw(poly(D, P, s, tiny_values(*TINY[name]), mag=0.5))]
+        case['dmode'] = 'tiny'
+        return case
     if mode == 'int' and name in ('sign', 'absolute', 'square', 'negative'):
         mode = 'f'          # integer preserving functions: bucket int:elementwise
     if mode == 'int' and KF.is_open('KF-int-dtype-data'):
